@@ -94,7 +94,7 @@ Qed.
 Inductive wstep : table -> table -> Prop :=
 | ws_refl : forall t, wstep t t
 | ws_id : forall t, wstep t (fst (t_fresh_id t))
-| ws_ins : forall t o, (o_kind o = Error -> exists r0, slot_of t (o_pk o) = Some (Live o r0)) -> wstep t (t_insert t o)
+| ws_ins : forall t o, (o_kind o = Error -> exists o0 r0, slot_of t (o_pk o) = Some (Live o0 r0) /\ o_kind o0 = Error) -> wstep t (t_insert t o)
 | ws_del : forall t k, wstep t (t_delete t k)
 | ws_trans : forall t1 t2 t3, wstep t1 t2 -> wstep t2 t3 -> wstep t1 t3.
 
@@ -130,8 +130,8 @@ Lemma w_stat_wstep : forall g e k, keyed (e_tab e) -> wstep (e_tab e) (e_tab (w_
 Proof.
   intros g e k Hk. unfold w_stat. destruct (t_live (e_tab e) k) as [[o r]|] eqn:El; [|apply ws_refl].
   match goal with |- wstep _ (e_tab (if ?b then _ else _)) => destruct b end; [apply ws_refl|].
-  cbn [add_urev set_tab e_tab]. apply ws_ins. intros _. exists r.
-  apply t_live_slot in El. rewrite (Hk k o r El). exact El.
+  cbn [add_urev set_tab e_tab]. apply ws_ins. intros He. exists o, r.
+  apply t_live_slot in El. change (o_pk (bump_aux o)) with (o_pk o). rewrite (Hk k o r El). split; [exact El|exact He].
 Qed.
 Lemma w_ref_wstep : forall e k, wstep (e_tab e) (e_tab (w_ref e k)).
 Proof.
